@@ -1,0 +1,18 @@
+//go:build verif
+
+package goldilocks
+
+import "github.com/consensys/gnark/frontend"
+
+// Verification hooks (build tag verif).
+
+// VerifResetChips empties the global per-API chip cache, so that a long-running harness
+// does not retain one chip per evaluated circuit.
+func VerifResetChips() {
+	mutex.Lock()
+	defer mutex.Unlock()
+	poseidonChips = make(map[frontend.API]*Chip)
+}
+
+// VerifRangeCheckerType exposes which range-check mechanism a chip selected.
+func (p *Chip) VerifRangeCheckerType() RangeCheckerType { return p.rangeCheckerType }
